@@ -47,9 +47,9 @@ Proof.
   set (p1 := i mod W) in *. set (p2 := i / W) in *. clearbody p1 p2. nia.
 Qed.
 
-Lemma q_round_is_from_f64 : forall mode q r, q_round mode q = Ok r -> exists x, r = from_f64 x.
+Lemma q_round_old_is_from_f64 : forall mode q r, q_round_old mode q = Ok r -> exists x, r = from_f64 x.
 Proof.
-  intros mode q r H. unfold q_round in H. destruct (into_f64 q) as [f|e|k]; try discriminate.
+  intros mode q r H. unfold q_round_old in H. destruct (into_f64 q) as [f|e|k]; try discriminate.
   cbn [bind] in H. injection H as <-. eexists; reflexivity.
 Qed.
 
@@ -72,10 +72,10 @@ Qed.
 (* every value from 2^64 + 1 on is rounded wrongly, whatever the f64 does *)
 Lemma round_beyond_u64_wrong_lemma : forall mode q r, rneg q = false -> dval q <> 0 ->
   (W + 1) * dval q <= nval q ->
-  q_round mode q = Ok r -> rat_is_Z r (round_spec mode q) = false.
+  q_round_old mode q = Ok r -> rat_is_Z r (round_spec mode q) = false.
 Proof.
   intros mode q r Hs Hd Hbig Hr.
-  destruct (q_round_is_from_f64 _ _ _ Hr) as [x ->].
+  destruct (q_round_old_is_from_f64 _ _ _ Hr) as [x ->].
   destruct (from_f64_bound x) as [Hden Hnum].
   pose proof (round_spec_ge mode q (Z.of_N (W + 1)) Hs Hd ltac:(lia) ltac:(lia)) as Hz.
   unfold rat_is_Z. rewrite Hden.
@@ -99,7 +99,7 @@ Definition wit_round : brat := mkrat false (of_N (5 * 10 ^ 29 - 1)) (of_N (10 ^ 
 
 Definition refutes (mode : rmode) (q : brat) : bool :=
   rat_wf q &&
-  match q_round mode q with
+  match q_round_old mode q with
   | Ok r => negb (rat_is_Z r (round_spec mode q))
   | _ => false
   end.
@@ -231,12 +231,12 @@ Proof.
 Qed.
 
 Lemma round_exact_lemma : forall mode q, rat_wf q = true ->
-  exists r, q_round_exact mode q = Ok r /\ dval r = 1 /\ rat_is_Z r (round_spec mode q) = true.
+  exists r, q_round mode q = Ok r /\ dval r = 1 /\ rat_is_Z r (round_spec mode q) = true.
 Proof.
   intros mode q Hwf.
   destruct (simplify_ok q Hwf) as [s [Es [Hsg [Hcross [Hds _]]]]].
   apply rat_wf_parts in Hwf. destruct Hwf as [_ [_ Hdq]].
-  unfold q_round_exact. rewrite Es. cbn [bind].
+  unfold q_round. rewrite Es. cbn [bind].
   destruct (N.eqb_spec (dval s) 0) as [|_]; [contradiction|].
   pose proof (round_core_spec mode (rneg s) (nval s) (dval s) Hds) as Hc.
   destruct (round_core mode (rneg s && negb (nval s =? 0)) (nval s) (dval s)) as [sg v].
@@ -354,10 +354,10 @@ Qed.
 
 (* the whole pipeline on an integer below 2^53 *)
 Lemma round_small_int : forall mode sg n, n < 2 ^ 53 ->
-  q_round mode (mkrat sg (Small n) (Small 1)) =
+  q_round_old mode (mkrat sg (Small n) (Small 1)) =
   Ok (mkrat (sg && negb (n =? 0)) (of_N (n * (W - 1))) (Small (W - 1))).
 Proof.
-  intros mode sg n Hn. unfold q_round, into_f64. cbn [rnum is_definitely_zero].
+  intros mode sg n Hn. unfold q_round_old, into_f64. cbn [rnum is_definitely_zero].
   destruct (N.eqb_spec n 0) as [->|Hnz].
   - cbn [bind]. rewrite andb_false_r. destruct mode; vm_compute; reflexivity.
   - assert (H0 : 0 < n) by lia.
@@ -422,10 +422,10 @@ Proof.
     + symmetry. apply Z.div_unique with (r := 1%Z); lia.
 Qed.
 
-Lemma round_except_known_lemma : forall mode q, rat_wf q = true -> known_C10_float q = false ->
-  exists r, q_round mode q = Ok r /\ rat_is_Z r (round_spec mode q) = true.
+Lemma round_except_known_lemma : forall mode q, rat_wf q = true -> known_C10_float_old q = false ->
+  exists r, q_round_old mode q = Ok r /\ rat_is_Z r (round_spec mode q) = true.
 Proof.
-  intros mode [sg [n|vn] [d|vd]] Hwf Hk; unfold known_C10_float in Hk; cbn [rnum rden is_small andb negb] in Hk; try discriminate.
+  intros mode [sg [n|vn] [d|vd]] Hwf Hk; unfold known_C10_float_old in Hk; cbn [rnum rden is_small andb negb] in Hk; try discriminate.
   apply negb_false_iff in Hk. apply andb_true_iff in Hk. destruct Hk as [Hd Hn].
   unfold dval in Hd. cbn [rden val] in Hd. unfold nval in Hn. cbn [rnum val] in Hn.
   apply N.eqb_eq in Hd. subst d. apply N.ltb_lt in Hn.
@@ -446,24 +446,24 @@ Qed.
 
 Lemma refutes_exists : forall mode q, refutes mode q = true ->
   exists q, rat_wf q = true /\
-  exists r, q_round mode q = Ok r /\ rat_is_Z r (round_spec mode q) = false.
+  exists r, q_round_old mode q = Ok r /\ rat_is_Z r (round_spec mode q) = false.
 Proof.
   intros mode q H. exists q. unfold refutes in H.
   apply andb_true_iff in H. destruct H as [Hw H]. split; [assumption|].
-  destruct (q_round mode q) as [r| |]; try discriminate.
+  destruct (q_round_old mode q) as [r| |]; try discriminate.
   exists r. split; [reflexivity|]. apply negb_true_iff. assumption.
 Qed.
 
 Lemma floor_refuted_ex : exists q, rat_wf q = true /\
-  exists r, q_round RFloor q = Ok r /\ rat_is_Z r (round_spec RFloor q) = false.
+  exists r, q_round_old RFloor q = Ok r /\ rat_is_Z r (round_spec RFloor q) = false.
 Proof. exact (refutes_exists RFloor wit_floor (proj1 floor_refuted_lemma)). Qed.
 
 Lemma ceil_refuted_ex : exists q, rat_wf q = true /\
-  exists r, q_round RCeil q = Ok r /\ rat_is_Z r (round_spec RCeil q) = false.
+  exists r, q_round_old RCeil q = Ok r /\ rat_is_Z r (round_spec RCeil q) = false.
 Proof. exact (refutes_exists RCeil wit_ceil ceil_refuted_lemma). Qed.
 
 Lemma round_refuted_ex : exists q, rat_wf q = true /\
-  exists r, q_round RRound q = Ok r /\ rat_is_Z r (round_spec RRound q) = false.
+  exists r, q_round_old RRound q = Ok r /\ rat_is_Z r (round_spec RRound q) = false.
 Proof. exact (refutes_exists RRound wit_round round_refuted_lemma). Qed.
 
 Lemma domain_errors_nonreal_lemma : forall c, real_is_zero (cim c) = false ->
@@ -483,3 +483,13 @@ Lemma beyond_u64_example :
   let q := mkrat false (Large [1; 1]) (Small 1) in
   rneg q = false /\ dval q <> 0 /\ (W + 1) * dval q <= nval q.
 Proof. vm_compute. repeat split; discriminate. Qed.
+
+Lemma floor_spec_lemma : forall q, rat_wf q = true ->
+  exists r, q_round RFloor q = Ok r /\ dval r = 1 /\ rat_is_Z r (round_spec RFloor q) = true.
+Proof. exact (round_exact_lemma RFloor). Qed.
+Lemma ceil_spec_lemma : forall q, rat_wf q = true ->
+  exists r, q_round RCeil q = Ok r /\ dval r = 1 /\ rat_is_Z r (round_spec RCeil q) = true.
+Proof. exact (round_exact_lemma RCeil). Qed.
+Lemma round_spec_lemma : forall q, rat_wf q = true ->
+  exists r, q_round RRound q = Ok r /\ dval r = 1 /\ rat_is_Z r (round_spec RRound q) = true.
+Proof. exact (round_exact_lemma RRound). Qed.
